@@ -94,6 +94,7 @@ def kernelStep (nr : Int) (args : List Val) (w : KW) : Val × KW :=
     | [_, v, n] => (.tup [n, .int 0, .int 0], { w with pipeOut := w.pipeOut ++ [v] })
     | _ => (okv 0, w)
   else if nr == cNat "syscall.SYS_GETPID" then (okv 4242, w)
+  else if nr == cNat "syscall.SYS_GETPPID" then (okv 4241, w)      -- the process that forked us (see "syscall.Getpid")
   else if nr == cNat "unix.SYS_EXECVE" || nr == cNat "unix.SYS_EXECVEAT" then (okv 0, { w with execed := true })
   else if nr == cNat "syscall.SYS_EXIT" then
     (okv 0, { w with exited := some (match args with | .int c :: _ => c | _ => 0) })
@@ -135,6 +136,7 @@ def extBase (name : String) (args : List Val) (env : Env) (w : KW) : Except Stri
     -- clone: we follow the child (r1 = 0, err1 = 0); recorded like any other syscall
     let (_, w) := rawSyscall args env w
     .ok (.tup [.int 0, .int 0], w)
+  | "syscall.Getpid", [] => .ok (.int 4241, w)                    -- the launcher's own pid, taken before the fork
   | "unsafe.Pointer", [v] => .ok (v, w)
   | "uintptr", [v] => .ok (v, w)
   | "unsafe.Sizeof", [.int _] => .ok (.int 8, w)
